@@ -659,6 +659,53 @@ pub fn run(ctx: &mut Ctx) {
         ctx.shape(&("history-cross", idx));
     });
 
+    // ------------------------------------------------ ClientHello session-id PRESENCE is what the outcome may depend on, never its
+    // length: present session ids of every length class, including lengths that no wire message can carry and
+    // lengths that wrap a 16-, 24-, 31- or 32-bit computation when a small offset is added (2^k - c for c = 0..80)
+    ctx.floor("sid-length.cases", 50 * 500);
+    ctx.sweep("session-id-length-classes", 50, |ctx, idx| {
+        let s0 = STATES[(idx / 2) as usize];
+        let to_server = idx % 2 == 0;
+        let big = match crate::gen::lazy_zeroed((1usize << 32) + 128) {
+            Some(b) => b,
+            None => {
+                ctx.unjudged("giant-buffer-not-allocatable");
+                return;
+            }
+        };
+        let mut rng = Rng::new(0xC08E + idx);
+        let sc = Scratch::new(&mut rng);
+        let mk = |sid: Option<&[u8]>| -> bool { sid.is_some() };
+        let _ = mk;
+        let hello = |sid: Option<&'_ [u8]>, sc: &Scratch| -> R {
+            let m = TlsMessage::Handshake(TlsMessageHandshake::ClientHello(TlsClientHelloContents { version: TlsVersion(0x0303), random: &sc.b[32..64], session_id: sid, ciphers: sc.ciphers.clone(), comp: sc.comp.clone(), ext: None }));
+            tls_state_transition(s0, &m, to_server)
+        };
+        let with_one = hello(Some(&big[..1]), &sc);
+        let mut lens: Vec<usize> = vec![0, 1, 2, 31, 32, 33, 255, 256, 257, 1000];
+        for base in [1usize << 16, 1 << 24, 1 << 31, 1 << 32] {
+            for c in 0..=80usize {
+                lens.push(base - c);
+                if c <= 64 {
+                    lens.push(base + c);
+                }
+            }
+        }
+        for l in lens {
+            let got = hello(Some(&big[..l]), &sc);
+            ctx.eval();
+            ctx.count("sid-length.cases");
+            if got != with_one {
+                ctx.violation(
+                    format!("c08:content-dependence:{:?}:ClientHello-session-id-length", s0),
+                    json!({"state": format!("{:?}", s0), "to_server": to_server, "session_id_len": l, "with_a_1_byte_session_id": res_str(&with_one), "with_this_length": res_str(&got)}),
+                );
+                return;
+            }
+        }
+        ctx.shape(&("sid-length", idx));
+    });
+
     // ------------------------------------------------ documented flows (explicit sequences)
     // (kind, to_server); flows end in SessionEncrypted unless an end state is given
     use TlsState as S;
